@@ -58,7 +58,8 @@ def _visit_BinOp(self, n):
     return n
 
 
-_Exprs.visit_BinOp = _visit_BinOp
+class _Commute(ast.NodeTransformer):
+    visit_BinOp = _visit_BinOp
 
 
 def _names(node: ast.AST, ident: str):
@@ -119,9 +120,146 @@ class _Stmts:
         return st
 
 
-def canonicalise(tree: ast.Module) -> ast.Module:
+def canonicalise_names_free(tree: ast.Module) -> ast.Module:
+    """stage A: the rewrites that do not depend on what variables are called (N1 - N3)"""
     tree = _Exprs().visit(tree)
     s = _Stmts()
     tree.body = s.block(tree.body)
     ast.fix_missing_locations(tree)
     return tree
+
+
+def canonicalise(tree: ast.Module, relpath: str = None) -> ast.Module:
+    tree = canonicalise_names_free(tree)
+    if relpath is not None:
+        tree.renamed_back = restore_local_names(tree, relpath)   # N5, before the only rewrite whose result depends on names (N4 orders operands by their text)
+    tree = _Commute().visit(tree)
+    ast.fix_missing_locations(tree)
+    return tree
+
+
+# ----------------------------------------------------------------------------------------------------------------------
+# N5  local variable names: a function that is alpha-equivalent to its reference version gets the reference's local names back
+#
+# Rules name the local variables they look at (the counter `index`, the selector `values_to_solve` ...).  Renaming a local is the commonest
+# behaviour-preserving edit there is, so before any rule runs, every function whose body equals the reference body up to a consistent renaming of
+# its own local variables is rewritten with the reference names.  The reference (sa/alpha_reference.json: per function, a digest of the
+# alpha-normal form of the canonicalised body and the local names in first-occurrence order) is generated from the clean tree by
+# tools/gen_alpha_reference.py.  A function that differs from its reference in anything but local names is left exactly as written.
+import hashlib
+import json
+import os
+
+_REF_PATH = os.path.join(os.path.dirname(os.path.abspath(__file__)), "alpha_reference.json")
+_REF = None
+
+
+def _own_locals(f: ast.AST):
+    """names bound in f itself (not parameters, not global / nonlocal, not bound only inside nested scopes), in first-occurrence order, plus all Name nodes of f's own scope"""
+    params = {a.arg for a in f.args.posonlyargs + f.args.args + f.args.kwonlyargs}
+    if f.args.vararg:
+        params.add(f.args.vararg.arg)
+    if f.args.kwarg:
+        params.add(f.args.kwarg.arg)
+    declared = set()
+    nodes = []          # Name / ExceptHandler / alias nodes of this scope, in source order
+    inner_reads = set()
+
+    def walk(n):
+        for ch in ast.iter_child_nodes(n):
+            if isinstance(ch, (ast.FunctionDef, ast.AsyncFunctionDef, ast.Lambda, ast.ClassDef)):
+                for x in ast.walk(ch):
+                    if isinstance(x, ast.Name):
+                        inner_reads.add(x.id)
+                continue
+            if isinstance(ch, (ast.Global, ast.Nonlocal)):
+                declared.update(ch.names)
+            if isinstance(ch, ast.Name):
+                nodes.append(ch)
+            walk(ch)
+    walk(f)   # structural (field) order: independent of line numbers, which survive from whatever spelling the source had before canonicalisation
+    stored = []
+    for x in nodes:
+        if isinstance(x.ctx, (ast.Store, ast.Del)) and x.id not in stored:
+            stored.append(x.id)
+    # comprehension targets live in their own scope but are harmless to treat as locals of f (they are renamed consistently)
+    locs = [v for v in stored if v not in params and v not in declared and v not in inner_reads and not v.startswith("__")]
+    return locs, nodes
+
+
+class _KwSort(ast.NodeTransformer):
+    def visit_Call(self, n):
+        self.generic_visit(n)
+        if len(n.keywords) > 1 and all(k.arg is not None for k in n.keywords):
+            n.keywords = sorted(n.keywords, key=lambda k: k.arg)
+        return n
+
+
+def alpha_form(f: ast.AST):
+    """(digest of the body with own locals replaced by placeholders numbered in BINDING order, operands of + / * and keyword arguments in a fixed order;
+    local names in binding order).  Binding order does not depend on the order of operands, so the digest is invariant under renaming combined with N1 - N4 spellings."""
+    import copy
+    locs, nodes = _own_locals(f)
+    order = list(locs)
+    ph = {v: f"_L{k}" for k, v in enumerate(order)}
+    saved = [(x, x.id) for x in nodes if x.id in ph]
+    for x, _ in saved:
+        x.id = ph[x.id]
+    try:
+        body = copy.deepcopy(ast.Module(body=f.body, type_ignores=[]))
+    finally:
+        for x, old in saved:
+            x.id = old
+    body = _KwSort().visit(_Commute().visit(body))
+    text = ast.dump(body, annotate_fields=False, include_attributes=False)
+    return hashlib.sha1(text.encode()).hexdigest()[:20], order, nodes
+
+
+def _qualified_functions(tree: ast.Module):
+    out = []
+
+    def visit(n, prefix):
+        for ch in ast.iter_child_nodes(n):
+            if isinstance(ch, (ast.FunctionDef, ast.AsyncFunctionDef)):
+                q = f"{prefix}{ch.name}"
+                out.append((q, ch))
+                visit(ch, q + ".<locals>.")
+            elif isinstance(ch, ast.ClassDef):
+                visit(ch, f"{prefix}{ch.name}.")
+            elif isinstance(ch, (ast.If, ast.Try, ast.With, ast.For, ast.While)):
+                visit(ch, prefix)
+    visit(tree, "")
+    return out
+
+
+def alpha_table(tree: ast.Module):
+    return {q: {"digest": alpha_form(f)[0], "locals": alpha_form(f)[1]} for q, f in _qualified_functions(tree)}
+
+
+def restore_local_names(tree: ast.Module, relpath: str) -> int:
+    """N5; returns the number of functions whose locals were renamed back to the reference names"""
+    global _REF
+    if _REF is None:
+        try:
+            _REF = json.load(open(_REF_PATH))
+        except Exception:
+            _REF = {}
+    ref = _REF.get(relpath)
+    if not ref:
+        return 0
+    n = 0
+    for q, f in _qualified_functions(tree):
+        r = ref.get(q)
+        if not r:
+            continue
+        digest, order, nodes = alpha_form(f)
+        if digest != r["digest"] or order == r["locals"] or len(order) != len(r["locals"]):
+            continue
+        ren = dict(zip(order, r["locals"]))
+        if len(set(ren.values())) != len(ren):
+            continue
+        for x in nodes:
+            if x.id in ren:
+                x.id = ren[x.id]
+        n += 1
+    return n
